@@ -376,8 +376,10 @@ class KaniRunner:
         """Re-runs a failing harness with concrete playback and returns the generated unit test text."""
         t0dir = os.path.join(self.scratch.dir, "t0")
         r = self._run_one(h, t0dir, playback_print=True)
-        m = re.search(r"```\n(.*?)```", r["out"], re.S)
-        return (m.group(1) if m else None), r
+        # Kani prints one playback test per failed check AND per satisfied cover: take one for a failed check
+        blocks = re.findall(r"```\n(.*?)```", r["out"], re.S)
+        failing = [b for b in blocks if not re.search(r"Check for `cover`", b)]
+        return (failing[0] if failing else None), r
 
 
 def playback(scratch, crate_dir, harness_file, test_text, release, package_args=None, timeout=900):
@@ -394,7 +396,8 @@ def playback(scratch, crate_dir, harness_file, test_text, release, package_args=
     cmd += ["--", mname]
     rc, out, wall, to = run_capped(cmd, crate_dir, kani_env(), timeout, None,
                                    os.path.join(scratch.dir, "logs", "playback_%s_%s.log" % (mname[-12:], "rel" if release else "dev")))
-    reproduced = (not to) and re.search(r"test result: FAILED\. 0 passed; 1 failed", out) is not None
+    reproduced = (not to) and (re.search(r"test result: FAILED\. 0 passed; 1 failed", out) is not None
+                               or ("test exited abnormally" in out and "running 1 test" in out))
     if "Not enough det vals found" in out or "concrete_playback.rs" in out.split("panicked at")[-1][:200]:
         # the playback machinery itself failed (no complete concrete assignment): not a reproduction
         reproduced = False
